@@ -152,6 +152,8 @@ SUB8 = ["", "a", "b", "ab", "ba", "aab", "abab", "bbaa"]
 TOKENS = ["$$", "$&", "$`", "$'", "$1", "$2", "$01", "$10", "$", "x"]
 TOKCLASS = {"$$": "$$", "$&": "$&", "$`": "$`", "$'": "$'", "$1": "$n", "$2": "$n", "$01": "$nn", "$10": "$nn",
             "$": "lone $", "x": "text"}
+# a template batch is grouped under the first of these token classes that it contains
+TMPL_PRIORITY = ["$`", "$'", "$nn", "lone $", "$n", "$$", "$&", "text"]
 LIMITS = [None, "0", "1", "2", "-1", "4294967297"]
 FN = ('var A; function F() { var a = []; for (var j = 0; j < arguments.length; j++) a.push(arguments[j]); '
       'A.push(a); return "<$&>"; } ')
@@ -285,8 +287,8 @@ def entries(outcome):
 
 
 def li_of(entry):
-    parts = split_top(entry)
-    return parts[-1] if parts else "?"
+    # history entries are `[result,lastIndex]`; a serialised lastIndex never contains a comma
+    return entry[:-1].rpartition(",")[2] if entry.endswith("]") else "?"
 
 
 D = {"d0000000000000000": 0, "d3ff0000000000000": 1, "d4000000000000000": 2, "d4008000000000000": 3,
@@ -543,7 +545,9 @@ def signature(sp, cid, payload, exp, obs):
     fc = flags_class(f)
     var = variant
     if variant == "(template)":
-        var = "(template with " + " + ".join(sorted({TOKCLASS[t] for t in payload.get("toks", [])} or {"nothing"})) + ")"
+        present = {TOKCLASS[t] for t in payload.get("toks", [])}
+        lead = [c for c in TMPL_PRIORITY if c in present]
+        var = "(template containing %s)" % lead[0] if lead else "(empty template)"
     elif variant.startswith("(limit"):
         var = "(with limit)"
     if i is None:
